@@ -62,3 +62,57 @@ Qed.
 Example confirm_before_fix_witness :
   confirm 200 0 [(0%Z, Some 1%N)] = true /\ confirm_before_fix 200 0 [(0%Z, Some 1%N)] = false.
 Proof. split; reflexivity. Qed.
+
+(** *** round 3: two designs that differ from the library's, refuted.
+
+    (a) CreateMessageBody taking the package constant DefaultMessageLifetime for
+    the default expiry instead of the wallet's configured lifetime: the signed
+    expiry differs from what Send/SendV2 sign for the same wallet. *)
+Lemma constant_lifetime_design_refuted :
+  exists life now, unix32 (expiry now default_lifetime_ns) <> unix32 (expiry now (lifetime_of (Some life))).
+Proof. exists 30000000000%Z, 0%Z. vm_compute. discriminate. Qed.
+
+(** (b) a wallet that memoises its StateInit and hands the cached value out by
+    pointer: the caller's in-place change of a returned value reaches every later
+    answer.  State = the cached value (Some = built and aliased by the caller). *)
+Section Memo.
+Variable code : version -> cell.
+Variable chash : cell -> res bytes.
+
+Definition memo_step (w : wallet) (cache : option cell) (op : wop) : option cell * wans :=
+  match op with
+  | OStateInit =>
+      match cache with
+      | Some c => (cache, AInit (Ok c))
+      | None => match state_init code w with
+                | Ok si => (Some si, AInit (Ok si))
+                | r => (None, AInit r)
+                end
+      end
+  | OMutate c => (match cache with Some _ => Some c | None => None end, ADone)
+  | OAddress => (cache, AAddr (address code chash w))
+  | ONext a =>
+      match next_params code w a with
+      | Ok (s, Some si) => let c := match cache with Some c => c | None => si end in
+                           (Some c, ANextP (Ok (s, Some c)))
+      | r => (cache, ANextP r)
+      end
+  end.
+Definition memo_design : design := mkdesign (option cell) None memo_step.
+
+(* StateInit(), overwrite the returned value, StateInit() again / send to a
+   non-existent account: the later answers are the caller's value, not the
+   wallet's state-init *)
+Lemma memoising_design_refuted w si c :
+  state_init code w = Ok si -> c <> si ->
+  w_ver w = V4R2 ->
+  run_design memo_design w None [OStateInit; OMutate c; OStateInit; ONext ANone]
+  <> map (fresh_answer code chash w) [OStateInit; OMutate c; OStateInit; ONext ANone].
+Proof.
+  intros Hs Hne Hv H. apply (f_equal (fun l => nth 2 l ADone)) in H.
+  cbn [run_design memo_design d_step map fst snd nth fresh_answer] in H.
+  unfold memo_step in H. rewrite Hs in H. cbn [fst snd] in H.
+  injection H as H. contradiction.
+Qed.
+
+End Memo.
